@@ -1120,7 +1120,7 @@ bool GennaroJareckiKrawczykRabinDKG::Reconstruct
 
 	// set ID for RBC
 	std::stringstream myID;
-	myID << "GennaroJareckiKrawczykRabinDKG::Reconstruct()" << p << q << g << h << n << t;
+	myID << "GennaroJareckiKrawczykRabinDKG::Reconstruct()" << p << q << g << h << n << t << label;
 	for (std::vector<size_t>::const_iterator it = complaints.begin(); it != complaints.end(); ++it)
 		myID << "[" << *it << "]";
 	rbc->setID(myID.str());
